@@ -1257,7 +1257,11 @@ func modI(x, y Integer) (Integer, error) {
 	if y == 0 {
 		return 0, exceptionalValueZeroDivisor
 	}
-	return x - (Integer(math.Floor(float64(x)/float64(y))) * y), nil
+	m := x % y
+	if m != 0 && (m < 0) != (y < 0) {
+		m += y
+	}
+	return m, nil
 }
 
 func negI(x Integer) (Integer, error) {
@@ -1301,7 +1305,11 @@ func intFloorDivI(x, y Integer) (Integer, error) {
 	case y == 0:
 		return 0, exceptionalValueZeroDivisor
 	default:
-		return Integer(math.Floor(float64(x) / float64(y))), nil
+		q := x / y
+		if x%y != 0 && (x < 0) != (y < 0) {
+			q--
+		}
+		return q, nil
 	}
 }
 
